@@ -166,11 +166,58 @@ def eval_word(case):
     return OK(outcome=(w, tuple(outs)), nontrivial=True, evals=nev)
 
 
+def eval_segments(case):
+    """Cyclepoints spaced exactly L samples apart, for every L up to a few hundred (segment lengths of slow rhythms at high sampling
+    rates), with midpoints (quarter-cycle segments) and without (half-cycle segments), both starting kinds."""
+    L, = case
+    outs = []
+    for first in 'PT':
+        other = 'T' if first == 'P' else 'P'
+        # with midpoints: E0 at 0, mid at L, E1 at 2L, mid at 3L, E2 at 4L, mid at 5L, E3 at 6L
+        ext = [1, 1 + 2 * L, 1 + 4 * L, 1 + 6 * L]
+        kinds = [first, other, first, other]
+        mids = [1 + L, 1 + 3 * L, 1 + 5 * L]
+        rises = [m for m, k in zip(mids, kinds) if k == 'T']
+        decays = [m for m, k in zip(mids, kinds) if k == 'P']
+        for N, e, k, r, d in ((6 * L + 4, ext, kinds, rises, decays), (3 * L + 3, [1, 1 + L, 1 + 2 * L, 1 + 3 * L], kinds, None, None)):
+            prob, pha = check_phase(N, e, k, r, d)
+            if prob:
+                return VIOL({'kind': 'phase', 'problem': prob, 'segment_len': L, 'midpoints': r is not None},
+                            'cyclepoints %d samples apart (%s midpoints), first extremum %s: phase violates %s' % (L, 'with' if r is not None else 'without', first, prob),
+                            observed={'N': N, 'extrema': e, 'kinds': k, 'rises': r, 'decays': d})
+            outs.append(hash(np.round(np.nan_to_num(pha), 9).tobytes()))
+    return OK(outcome=(L, tuple(outs)), nontrivial=True, evals=4)
+
+
+def eval_long_phase(case):
+    """A recording longer than 2**16 samples with a cyclepoint every 25 samples, shifted through all 100 alignments: whatever
+    block structure an implementation uses, every position within the cycle meets every block border."""
+    off, with_mid = case
+    N = 66000 + off
+    pts = list(range(off, N - 2, 25))
+    ext = pts[0::2]
+    kinds = ['P' if i % 2 == 0 else 'T' for i in range(len(ext))]
+    mids = pts[1::2][:len(ext) - 1]
+    decays = [m for m, k in zip(mids, kinds) if k == 'P']
+    rises = [m for m, k in zip(mids, kinds) if k == 'T']
+    prob, pha = check_phase(N, ext, kinds, rises if with_mid else None, decays if with_mid else None)
+    if prob:
+        bad = None
+        return VIOL({'kind': 'phase', 'problem': prob, 'long': True, 'midpoints': bool(with_mid)},
+                    'recording of %d samples, cyclepoint grid offset %d: phase violates %s' % (N, off, prob))
+    return OK(outcome=(off, with_mid), nontrivial=True, evals=1)
+
+
 def spaces(tier, seed):
+    Lmax = 400 if tier == 'quick' else 1200
+    scale = [ProductSpace('segment-lengths<=%d' % Lmax, [list(range(2, Lmax + 1))], eval_segments,
+                          describe='cyclepoints exactly L samples apart for every L = 2..%d, with and without midpoints, both starting kinds' % Lmax),
+             ProductSpace('long-recording-x-alignments', [list(range(100)), [1, 0]], eval_long_phase,
+                          describe='66000-sample recording (longer than 2**16), a cyclepoint every 25 samples, all 100 grid alignments x with / without midpoints')]
     if tier == 'quick':
         return [Placements(8, True), Placements(10, True), Placements(14, False),
-                ProductSpace('words-W(6,5)', S.word_dims(S.alphabet(6), 5), eval_word, bounds={'letters': S.alphabet(6)})]
+                ProductSpace('words-W(6,5)', S.word_dims(S.alphabet(6), 5), eval_word, bounds={'letters': S.alphabet(6)})] + scale
     al = S.alphabet(8, seed, extra=2)
-    return [Placements(10, True), Placements(12, True), Placements(14, False), Placements(18, False),
+    return scale + [Placements(8, True), Placements(10, True), Placements(12, True), Placements(14, False), Placements(18, False),
             ProductSpace('words-W(10,5)', S.word_dims(al, 5), eval_word, bounds={'letters': al}),
             ProductSpace('words-W(6,6)', S.word_dims(S.alphabet(6), 6), eval_word)]
